@@ -53,18 +53,22 @@ def run(ctx):
             p1.append("Display paths disagree on the constant prefix")
         # ---- FromStr side
         chains = []
+        exact33 = []
         for v, guards in foks:
             if not (isinstance(v, tuple) and v[0] == "agg" and v[2]):
                 p1.append("FromStr result is not an aggregate")
                 continue
             field = v[2][STORED_FIELD[tname]]
             if tname == "KeyId":
-                # [0;33] overwritten by base64::decode(s, &mut id)
+                # form 1: [0;33] overwritten by base64::decode(s, &mut id);  form 2: an exact-length std conversion of decode_vec(s)
                 src = None
-                xs = subterms(field, lambda x: x and x[0] == "mut" )
                 t = field
                 if isinstance(t, tuple) and t[0] == "mut" and t[2][0] == "base64::decode":
                     src = t[2][2][0]
+                ex = exact_len_conv(field)
+                if src is None and ex is not None and ex[1] == 33:
+                    src = decoded_source(ex[0])
+                    exact33.append(v)
                 if src is None:
                     p2.append("KeyId bytes are not produced by base64::decode of the remainder: " + fmt_n(field)[:200])
                     continue
@@ -129,6 +133,8 @@ def run(ctx):
                 for c, val in guards:
                     if isinstance(c, tuple) and c[0] == "binop" and c[1] == "Ne" and c[3] == ("int", 33) and "len" in repr(c[2]) and "base64::decode" in repr(c[2]) and val == 0:
                         ok6 = True
+                if v in exact33:
+                    ok6 = True      # Vec<u8> / &[u8] -> [u8; 33] TryFrom succeeds iff the length is exactly 33
             ctx.add("R09.6", "C09/keyid-33", ok6, "" if ok6 else "no success-path guard `decoded length == 33`", site_of(ff))
     serde_rules(ctx)
     b64rules.run(ctx)
